@@ -113,6 +113,18 @@ def corpus(rng, quick):
         for nn, nested in (("par", npar), ("map", nmap)):
             out.append(S("handled-fail-vs-nested-%s-%s" % (nn, hn), outer(handler, nested), {"items": [1, 2]},
                          {"fa": [("err", "EA", "m")] + ([("ok",)] if hn == "retry-ok" else []), "fx": [("ok",)]}, {"fa": 5, "fx": 40}))
+    # ... and while the nested Map's *re-entry event* (MaxConcurrency: first batch just joined) is still queued: the failing
+    # branch takes two Pass hops, so that under the canonical schedule the Map's task is requested first, both replies are
+    # published at the same instant, the Map's is handled first (join, re-entry event published) and the failure second —
+    # the re-entry event is then dropped with its never-launched slots (C03-F5's path, reached by no schedule before)
+    for hn, handler in (("none", {}), ("catch", {"Catch": [{"ErrorEquals": ["EA"], "Next": "R"}]}),
+                        ("retry-ok", {"Retry": [{"ErrorEquals": ["EA"], "IntervalSeconds": 3, "MaxAttempts": 2}]})):
+        m = {"StartAt": "P", "States": {"P": dict({"Type": "Parallel", "Next": "Z", "Branches": [
+            {"StartAt": "N", "States": {"N": json.loads(json.dumps(nmap))}},
+            {"StartAt": "A0", "States": {"A0": {"Type": "Pass", "Next": "A1"}, "A1": {"Type": "Pass", "Next": "A"}, "A": T("fa")}}]}, **handler),
+            "Z": {"Type": "Pass", "End": True}, "R": {"Type": "Pass", "Result": "recovered", "End": True}}}
+        out.append(S("handled-fail-vs-nested-map-reentry-%s" % hn, m, {"items": [1, 2]},
+                     {"fa": [("err", "EA", "m")] + ([("ok",)] if hn == "retry-ok" else []), "fx": [("ok",)]}, {"fa": 10, "fx": 10}))
     # a branch fails while a sibling is pending in a Task / Wait that has a Retry or Catch of its own (States.ALL,
     # States.TaskFailed), or sits in a nested fan-out that has one: the cancellation (Task.Terminated) of the sibling must go
     # through none of them — flat unhandled / caught / retried enclosing state
@@ -212,6 +224,7 @@ def corpus(rng, quick):
     out.append(S("oversize-branch-task", {"StartAt": "P", "States": {"P": {"Type": "Parallel", "End": True, "Branches": [
         {"StartAt": "T", "States": {"T": T("f1", Next="Z", ResultPath="$.dup"), "Z": {"Type": "Pass", "End": True}}},
         {"StartAt": "B", "States": {"B": T("f2")}}]}}}, big, {"f1": [("ok",)], "f2": [("ok",)]}, {"f1": 10, "f2": 30}))
+    out += [w for w in error_sites() + child_scenarios() if "finding" not in w.extra or finding_status(w.extra["finding"]) == "fixed"]
     # the witnesses of the fan-out protocol findings, once they are repaired (until then C06 runs them and classifies)
     out += [w for w in fan_witnesses() if finding_status(w.extra["finding"]) == "fixed"]
     # minimised / kept past failures (corpus/engine.json)
@@ -230,6 +243,70 @@ def corpus(rng, quick):
         if fi is not None:
             s.plans = {"g": [("ok",)]}
             s.extra["fail_payload"] = fi
+    return out
+
+
+def error_sites():
+    """every place at which a state handler can fail while it evaluates the state's own fields — an intrinsic function
+    with an ill-typed argument (IF), a path that selects nothing (PM), a ResultPath through a number (RP) — for each handler
+    (Pass, Task before the request and on the reply, Parallel / Map at the launch and at the join, Choice, Wait, Succeed),
+    without and with a Catch that places the Error Output into the raw input, at the top level and (a sample) inside a
+    Parallel branch beside a slow sibling; a Map with MaxConcurrency whose ItemSelector fails on an item of a *later* batch.
+    Each such site has its own `except` arm in the engine that must fail the state (handle_error) and then acknowledge the
+    event: the mutation campaign found arms no scenario reached (MUTATION.md)."""
+    S = explore.Scenario
+    IF, IFR, IFJ = {"v.$": "States.MathAdd($.s, 1)"}, {"v.$": "States.MathAdd($.fn, 1)"}, {"v.$": "States.MathAdd($[0], 1)"}
+    PM, PMJ = {"v.$": "$.nope"}, {"v.$": "$[7].nope"}
+    RP = "$.n.x"
+    data = {"x": 1, "n": 5, "s": "str", "items": [1, "two"]}
+    catch = [{"ErrorEquals": ["States.ALL"], "Next": "R", "ResultPath": "$.e"}]
+    br = lambda: [{"StartAt": "A", "States": {"A": T("f1")}}, {"StartAt": "B", "States": {"B": {"Type": "Pass", "End": True}}}]
+    it = lambda: {"StartAt": "A", "States": {"A": T("f1")}}
+    sites = []                       # (name, state fields, may have a Catch)
+    for kind, f in (("IF", {"Parameters": IF}), ("PM", {"Parameters": PM}), ("RP", {"ResultPath": RP}), ("OP", {"OutputPath": "$.nope"})):
+        sites.append(("pass-" + kind, dict({"Type": "Pass"}, **f), False))
+    for kind, f in (("IF", {"Parameters": IF}), ("PM", {"Parameters": PM})):
+        sites.append(("taskpre-" + kind, dict({"Type": "Task", "Resource": FN + "f1"}, **f), True))
+        sites.append(("parlaunch-" + kind, dict({"Type": "Parallel", "Branches": br()}, **f), True))
+    for kind, f in (("IF", {"ResultSelector": IFR}), ("PM", {"ResultSelector": PM}), ("RP", {"ResultPath": RP}), ("OP", {"OutputPath": "$.nope"})):
+        sites.append(("taskpost-" + kind, dict({"Type": "Task", "Resource": FN + "f1"}, **f), True))
+    for kind, f in (("IF", {"ResultSelector": IFJ}), ("PM", {"ResultSelector": PMJ}), ("RP", {"ResultPath": RP}), ("OP", {"OutputPath": "$.nope"})):
+        sites.append(("parjoin-" + kind, dict({"Type": "Parallel", "Branches": br()}, **f), True))
+        sites.append(("mapjoin-" + kind, dict({"Type": "Map", "ItemsPath": "$.items", "ItemProcessor": it()}, **f), True))
+    sel = {"v.$": "States.MathAdd($$.Map.Item.Value, 1)"}
+    sites.append(("maplaunch-IF", {"Type": "Map", "ItemsPath": "$.items", "ItemSelector": sel, "ItemProcessor": it()}, True))
+    sites.append(("maplaunch-PM", {"Type": "Map", "ItemsPath": "$.nope", "ItemProcessor": it()}, True))
+    sites.append(("maplatebatch-IF", {"Type": "Map", "ItemsPath": "$.items", "MaxConcurrency": 1, "ItemSelector": sel, "ItemProcessor": it()}, True))
+    sites.append(("choice-IP", {"Type": "Choice", "InputPath": "$.nope", "Choices": [{"Variable": "$.x", "NumericEquals": 1, "Next": "Z"}], "Default": "Z"}, False))
+    sites.append(("choice-OP", {"Type": "Choice", "OutputPath": "$.nope", "Choices": [{"Variable": "$.x", "NumericEquals": 1, "Next": "Z"}], "Default": "Z"}, False))
+    sites.append(("wait-IP", {"Type": "Wait", "InputPath": "$.nope", "Seconds": 1}, False))
+    sites.append(("wait-OP", {"Type": "Wait", "OutputPath": "$.nope", "Seconds": 1}, False))
+    sites.append(("wait-SP", {"Type": "Wait", "SecondsPath": "$.nope"}, False))
+    inbranch = ("pass-OP", "taskpost-IF", "taskpost-RP", "maplaunch-IF", "maplatebatch-IF", "parjoin-RP", "mapjoin-PM", "wait-OP")
+    out = []
+    retry = [{"ErrorEquals": ["States.ALL"], "IntervalSeconds": 1, "MaxAttempts": 1}]
+    for name, st, catchable in sites:
+        handlers = (("", {}), ("-catch", {"Catch": catch})) if catchable else (("", {}),)
+        if name == "maplatebatch-IF":
+            handlers += (("-retry", {"Retry": retry}),)
+        for tag, extra in handlers:
+            state = dict(json.loads(json.dumps(st)), **extra)
+            if state["Type"] != "Choice":
+                state["Next"] = "Z"
+            states = {"S": state, "Z": {"Type": "Pass", "End": True}, "R": {"Type": "Pass", "Result": "recovered", "ResultPath": "$.r", "End": True}}
+            # C03-F6 (open): a Map re-entered for a later batch fails with its own re-entry entry still on the Branch stack;
+            # unhandled at the top level the execution just fails, every other variant is a witness of the finding
+            # (the fan-out protocol model has no input for "the launch of a later batch failed": these runs are outside its tie)
+            late = {"finding": "C03-F6", "fan_tie": False, "fan_tie_why": "late-batch launch failure"} if name == "maplatebatch-IF" else {}
+            out.append(S("errsite-%s%s" % (name, tag), {"StartAt": "S", "States": states}, data, {"f1": [("ok",)]}, {"f1": 10},
+                         extra=dict({"n_rand": 1}, **(late if tag else {k: v for k, v in late.items() if k != "finding"}))))
+            if name in inbranch and tag != "-retry":
+                m = {"StartAt": "P", "States": {"P": {"Type": "Parallel", "End": True, "Branches": [
+                    {"StartAt": "S", "States": json.loads(json.dumps(states))},
+                    {"StartAt": "SB", "States": {"SB": T("fslow")}}]}}}
+                out.append(S("errsite-%s%s-inbranch" % (name, tag), m, data, {"f1": [("ok",)], "fslow": [("ok",)]}, {"f1": 10, "fslow": 60},
+                             extra=dict({"n_rand": 2}, **late)))
+    out.append(S("errsite-succeed-IP", {"StartAt": "S", "States": {"S": {"Type": "Succeed", "InputPath": "$.nope"}}}, data, extra={"n_rand": 1}))
     return out
 
 
@@ -304,6 +381,40 @@ def fan_witnesses():
                              {"fa": [("err", "EA", "m"), ("ok",)], "fx": [("ok",)]}, {"fa": 5, "fx": 400},
                              extra={"finding": "C06-F6", "errors": ["EA"]}))
     return out
+
+
+def child_scenarios():
+    """a parent whose Task runs a child execution synchronously and gives up on it (TimeoutSeconds 1, or a sibling branch
+    fails) while the child is blocked: on a single Task, or on a Task and a Wait inside a Parallel state.  The child is a
+    started execution like any other (C02): cancelling what it is blocked on must end it.  The fan-out child is the witness
+    of the open finding C02-F6 (left RUNNING for ever)."""
+    S = explore.Scenario
+    SYNC = "arn:aws:states:local:0123456789:states:startExecution.sync"
+    kids = {
+        "task": {"StartAt": "A", "States": {"A": T("f", Next="B"), "B": T("g")}},
+        "fanout": {"StartAt": "P", "States": {"P": {"Type": "Parallel", "End": True, "Branches": [
+            {"StartAt": "A", "States": {"A": T("f", Next="B"), "B": T("g")}},
+            {"StartAt": "W", "States": {"W": {"Type": "Wait", "Seconds": 30, "End": True}}}]}}},
+    }
+    out = []
+    for kn, kid in kids.items():
+        call = {"Type": "Task", "Resource": SYNC, "End": True, "Parameters": {"Input.$": "$", "StateMachineArn": ARN + "child"}}
+        tag = {"finding": "C02-F6"} if kn == "fanout" else {}
+        out.append(S("child-%s-parent-times-out" % kn, {"StartAt": "T", "States": {"T": dict(call, TimeoutSeconds=1)}}, {"x": 1},
+                     {"f": [("ok",)], "g": [("ok",)]}, {"f": 6000, "g": 10},
+                     extra=dict({"machines": {"child": (kid, "STANDARD")}, "n_rand": 2}, **tag)))
+        out.append(S("child-%s-parent-terminated" % kn, {"StartAt": "P", "States": {"P": {"Type": "Parallel", "End": True, "Branches": [
+            {"StartAt": "T", "States": {"T": call}}, {"StartAt": "H", "States": {"H": T("h")}}]}}}, {"x": 1},
+            {"f": [("ok",)], "g": [("ok",)], "h": [("err", "Sibling.Failed", "m")]}, {"f": 6000, "g": 10, "h": 300},
+            extra=dict({"machines": {"child": (kid, "STANDARD")}, "n_rand": 2}, **tag)))
+    return out
+
+
+def open_witnesses(prop):
+    """the scenarios that witness an open finding of `prop` (run by that property's check only, and classified; they join
+    the shared corpus once the finding is fixed)"""
+    return [w for w in error_sites() + child_scenarios()
+            if w.extra.get("finding", "").startswith(prop + "-") and finding_status(w.extra["finding"]) == "open"]
 
 
 def finding_status(fid):
@@ -446,8 +557,8 @@ class Monitor(object):
                         (rec.get("output") is not None) == (st == "SUCCEEDED") and
                         ((rec.get("error") is not None) == (st == "FAILED") or (st == "FAILED" and "error" in rec)) and
                         (not term or st != "SUCCEEDED" or rec.get("error") is None))
-            if st == "FAILED" and "error" not in rec:
-                shape_ok = False
+            if st == "FAILED" and ("error" not in rec or "cause" not in rec):
+                shape_ok = False        # error *and* cause are set iff FAILED (a failure without a Cause text sets it to null)
             if st != "FAILED" and (rec.get("error") is not None or rec.get("cause") is not None):
                 shape_ok = False
             if not shape_ok:
@@ -512,6 +623,15 @@ class Monitor(object):
         self.final_history = hist
         rec = s.record(ea)
         term = rec is not None and rec.get("status") in ("SUCCEEDED", "FAILED")
+        # every execution that was started — a child launch too — has ended once nothing is left to carry any of them
+        # forward (the run is over: no message, no unacknowledged delivery, no timer but heartbeats)
+        if term and s.quiescent_or_idle() and not self.carriers(s):
+            eng = s.engine()
+            for arn in list(eng.executions.keys()):
+                other = eng.executions.get(arn)
+                if arn != ea and other is not None and dict(other).get("status") == "RUNNING":
+                    self.problems.append(("C02.every_started_execution_ends", {"execution": arn, "record": dict(other),
+                                                                               "volatile": s.snapshot_volatile()}))
         # drain clause
         if term and s.quiescent_or_idle():
             v = s.snapshot_volatile()
@@ -546,7 +666,7 @@ def hist_line(hist):
 
 
 def run_property(chk, prop, laws, quick_gen=300, thorough_gen=4000, scns=None, n_rand=None, expect=None, rule=None,
-                 skip_multi=True):
+                 skip_multi=True, extra_scns=()):
     """run the scenario corpus x schedules with the monitor; report only the laws of `prop`"""
     quick = chk.tier == "quick"
     chk.lean_stage()
@@ -557,6 +677,7 @@ def run_property(chk, prop, laws, quick_gen=300, thorough_gen=4000, scns=None, n
         simmod.Sim.quiescent_or_idle = quiescent_or_idle
     if scns is None:
         scns = corpus(chk.rng, quick) + generated(chk.rng, quick_gen if quick else thorough_gen, 2)
+    scns = list(scns) + list(extra_scns)
     if n_rand is None:
         n_rand = 4 if quick else 40
     lines, line_meta = [], []
@@ -565,7 +686,8 @@ def run_property(chk, prop, laws, quick_gen=300, thorough_gen=4000, scns=None, n
     fan = prop == "C06"
     for scn in scns:
         hand = not scn.name.startswith("gen")
-        scheds = ["canonical"] + ["random"] * (n_rand if hand else 1)
+        # (a sequential machine has one schedule up to heartbeat placement: its scenarios ask for fewer random ones)
+        scheds = ["canonical"] + ["random"] * (min(n_rand, scn.extra.get("n_rand", n_rand)) if hand else 1)
         if prop == "C11" and hand and scn.extra.get("fail_payload") is None and "TimeoutSeconds" not in scn.machine \
                 and not scn.name.startswith("oversize"):
             # the same over a Redis-backed store shared by two engine instances (each its own client): the record and the
@@ -585,7 +707,9 @@ def run_property(chk, prop, laws, quick_gen=300, thorough_gen=4000, scns=None, n
             if redis:
                 kind = kind[len("redis-"):]
             # C06: the run is also abstracted into the alphabet of the fan-out protocol model (fanproto.py)
-            tracer = fanproto.Tracer(s, ea) if (fan and not redis and scn.sm_type == "STANDARD") else None
+            tracer = fanproto.Tracer(s, ea) if (fan and not redis and scn.sm_type == "STANDARD" and scn.extra.get("fan_tie", True)) else None
+            if fan and not scn.extra.get("fan_tie", True):
+                chk.dist("fanproto.unsupported.%s" % scn.extra.get("fan_tie_why", "scenario"))
             mon(s, ea, None)
             g = None
             stall_at = None if kind != "stall" else chk.rng.choice(["terminal", "terminal", chk.rng.randrange(0, 14)])
@@ -687,7 +811,9 @@ def run_property(chk, prop, laws, quick_gen=300, thorough_gen=4000, scns=None, n
                     lines.append("engine\tledger\t" + pj(mon.ledger))
                     line_meta.append(("ledger", case, s.snapshot_volatile()))
                     for i, fs in enumerate(mon.steps):
-                        if any(f[0] == "a" for f in fs) and any(f[0] == "p" for f in fs):
+                        # (a step that cancels a child execution's tasks handles two executions' events, each acknowledged
+                        # after its own consequences: [p a p a] — the one-event ordering law is not asked of those scenarios)
+                        if any(f[0] == "a" for f in fs) and any(f[0] == "p" for f in fs) and not scn.extra.get("machines"):
                             lines.append("engine\tordered\t" + pj(fs))
                             oc = dict(case, step=i, step_kind=trace[i] if i < len(trace) else None)
                             ordered_cases.append((oc, case))
@@ -697,10 +823,18 @@ def run_property(chk, prop, laws, quick_gen=300, thorough_gen=4000, scns=None, n
                     line_meta.append(("notes", case, [n["detail"]["status"] for n in mon.notes]))
             s.close()
     # --- C06.matches_fan_protocol: the protocol model, run on the abstracted inputs of every run, against what the engine did
-    classify_for = fan_protocol_stage(chk, pending_runs) if fan else (lambda pr: None)
+    # a run of a scenario that is the witness of an open finding is explained by that finding (and by nothing else)
+    by_tag = lambda pr: ((lambda f, case, impl, model: f["id"] == pr["scn"].extra["finding"])
+                         if pr is not None and pr["scn"].extra.get("finding") else None)
+    classify_for = fan_protocol_stage(chk, pending_runs) if fan else by_tag
     # --- outcome laws that need the reference semantics: one batched driver call
     mlines = [pr["mline"] for pr in pending_runs if pr["mline"]]
-    manswers = iter(common.driver(mlines, shards=8))
+    # the schedules of one scenario mostly ask the same question (same machine, input and worker answers): asked once
+    uniq = list(dict.fromkeys(mlines))
+    answer_of = dict(zip(uniq, common.driver(uniq, shards=8)))
+    chk.dist("reference_runs.asked", len(mlines))
+    chk.dist("reference_runs.distinct", len(uniq))
+    manswers = iter([answer_of[l] for l in mlines])
     for pr in pending_runs:
         mo = None
         if pr["mline"]:
@@ -746,7 +880,7 @@ def run_property(chk, prop, laws, quick_gen=300, thorough_gen=4000, scns=None, n
     for oc, case in ordered_cases:
         run_of[id(oc)] = run_of.get(id(case))
     for a, (kind, case, extra) in zip(answers, line_meta):
-        classify = classify_for(run_of.get(id(case))) if fan else None
+        classify = classify_for(run_of.get(id(case)))
         parts = a.split("\t")
         chk.cov["evaluations"] += 1
         if parts[0] != "ok":
